@@ -353,6 +353,12 @@ pub struct Sim {
     pub default_cancelable: bool,
     /// Per target descriptor (sqe.fd) override of `default_cancelable`.
     pub cancel_policy: Vec<(i32, bool)>,
+    /// Requests the kernel refuses while preparing them, by target descriptor (sqe.fd) with the
+    /// errno: the request never gets in flight, its only completion (-errno) is posted when the
+    /// submission is consumed, and — as io_submit_sqes() does — on a ring set up without
+    /// IORING_SETUP_SUBMIT_ALL the `enter` stops consuming there (the refused one counts as
+    /// consumed; what is queued behind it stays queued).
+    pub reject_policy: Vec<(i32, i32)>,
     /// Cancellation as the kernel does it for requests it cannot finish at once (K2, K4; used by
     /// C12). Off (default): ASYNC_CANCEL looks at `cancelable` only and REGISTER_SYNC_CANCEL
     /// finishes everything in flight. On: a request is cancelable iff its `cancelable` flag is set
@@ -825,13 +831,23 @@ impl Sim {
             self.a32(self.sq_ring, SQ_HEAD).store(head.wrapping_add(1), Ordering::SeqCst);
             self.sq_ghost_head += 1;
             done += 1;
-            self.execute(sqe);
+            if !self.execute(sqe) && self.flags & SETUP_SUBMIT_ALL == 0 {
+                break;
+            }
         }
         done
     }
 
-    fn execute(&mut self, sqe: Sqe) {
+    /// Returns false when the request was refused while being prepared.
+    fn execute(&mut self, sqe: Sqe) -> bool {
         let skip_ok = sqe.flags & SQE_CQE_SKIP_SUCCESS != 0;
+        if !matches!(sqe.opcode, OP_ASYNC_CANCEL | OP_MSG_RING | OP_CLOSE) {
+            if let Some(&(_, errno)) = self.reject_policy.iter().find(|p| p.0 == sqe.fd) {
+                self.log.push(Ev::Consumed { sqe, req: None });
+                self.post(Cqe { user_data: sqe.user_data, res: -errno, flags: 0 });
+                return false;
+            }
+        }
         match sqe.opcode {
             OP_ASYNC_CANCEL => {
                 self.log.push(Ev::Consumed { sqe, req: None });
@@ -882,6 +898,7 @@ impl Sim {
                 }
             }
         }
+        true
     }
 
     /// A request that posts its result with IORING_CQE_F_MORE and a notification afterwards.
@@ -1047,6 +1064,7 @@ unsafe fn hook_setup(entries: c_uint, p: *mut c_void) -> Option<c_int> {
         files: None,
         default_cancelable: true,
         cancel_policy: Vec::new(),
+        reject_policy: Vec::new(),
         strict_cancel: false,
         cfg: cfg.clone(),
         mmaps_seen: 0,
@@ -1301,20 +1319,48 @@ unsafe fn hook_register(fd: c_int, opcode: c_uint, arg: *const c_void, nr: c_uin
         }
         REGISTER_SYNC_CANCEL => {
             let r = unsafe { (arg as *const SyncCancelReg).read() };
-            if sim.strict_cancel {
-                // K2/K4: every in-flight request that can be cancelled, in order, exactly as
+            // Which requests the call names (io_cancel_req_match): ANY takes everything; else the
+            // descriptor (FD) and/or opcode (OP) must agree and, when neither is given or
+            // USERDATA is, `addr` must equal the request's user_data. Without ALL (ANY implies
+            // it) only the first match is cancelled. Unknown flag bits and padding: EINVAL.
+            const FD: u32 = 1 << 1;
+            const FD_FIXED: u32 = 1 << 3;
+            const USERDATA: u32 = 1 << 4;
+            const OP: u32 = 1 << 5;
+            let known = ASYNC_CANCEL_ALL | FD | ASYNC_CANCEL_ANY | FD_FIXED | USERDATA | OP;
+            let matches = |q: &Sqe| -> bool {
+                if r.flags & ASYNC_CANCEL_ANY != 0 {
+                    return true;
+                }
+                if r.flags & FD != 0 && q.fd != r.fd {
+                    return false;
+                }
+                if r.flags & OP != 0 && q.opcode != r.opcode {
+                    return false;
+                }
+                let by_data = r.flags & (FD | OP) == 0 || r.flags & USERDATA != 0;
+                !(by_data && q.user_data != r.addr)
+            };
+            let all = r.flags & (ASYNC_CANCEL_ALL | ASYNC_CANCEL_ANY) != 0;
+            if r.flags & !known != 0 || r.pad != [0; 7] || r.pad2 != [0; 3] || nr != 1 {
+                detail = format!("flags={} refused", r.flags);
+                -libc::EINVAL
+            } else if sim.strict_cancel {
+                // K2/K4: every named in-flight request that can be cancelled, in order, exactly as
                 // ASYNC_CANCEL would; the others stay in flight and the call times out.
-                let n = sim.inflight.len();
+                let n = sim.inflight.iter().filter(|q| matches(&q.sqe)).count();
                 let mut pos = 0;
-                while pos < sim.inflight.len() {
-                    if sim.can_cancel(pos) {
+                let mut done = 0;
+                while pos < sim.inflight.len() && (all || done == 0) {
+                    if matches(&sim.inflight[pos].sqe) && sim.can_cancel(pos) {
                         sim.cancel_at(pos);
+                        done += 1;
                     } else {
                         pos += 1;
                     }
                 }
-                let left = sim.inflight.len();
-                detail = format!("flags={} inflight={} left={}", r.flags, n, left);
+                let left = if all { n - done } else { usize::from(n > 0 && done == 0) };
+                detail = format!("flags={} inflight={} named={} left={}", r.flags, sim.inflight.len() + done, n, left);
                 if left > 0 {
                     -libc::ETIME
                 } else if n == 0 {
@@ -1324,11 +1370,17 @@ unsafe fn hook_register(fd: c_int, opcode: c_uint, arg: *const c_void, nr: c_uin
                 }
             } else {
                 detail = format!("flags={} inflight={}", r.flags, sim.inflight.len());
-                // K4: every in-flight request posts its final completion.
-                let all = std::mem::take(&mut sim.inflight);
-                let n = all.len();
-                for req in all {
-                    sim.post(Cqe { user_data: req.sqe.user_data, res: -libc::ECANCELED, flags: 0 });
+                // K4: every named in-flight request posts its final completion.
+                let mut n = 0;
+                let mut pos = 0;
+                while pos < sim.inflight.len() && (all || n == 0) {
+                    if matches(&sim.inflight[pos].sqe) {
+                        let req = sim.inflight.remove(pos);
+                        sim.post(Cqe { user_data: req.sqe.user_data, res: -libc::ECANCELED, flags: 0 });
+                        n += 1;
+                    } else {
+                        pos += 1;
+                    }
                 }
                 if n == 0 { -libc::ENOENT } else { 0 }
             }
